@@ -67,13 +67,16 @@ CHECKS = {
             "each until its first pass is committed; spec/SearchTrace.tla recomputes MateMoves of layer R and demands a "
             "mating move with the mover's mate-in-one score when one exists and no mate-in-one score otherwise. Further "
             "families emit only positions whose mate is a capture (attackers x defenders), whose mover is in check with one "
-            "or two legal moves, whose mate is an under-promotion, or whose mating move is played at half-move clock 99.",
+            "or two legal moves, whose mate is an under-promotion or a push-promotion beside a possible capture, or whose mating "
+            "move is played at half-move clock 99; a battery family (back-rank exchanges) looks for mate-in-one scores "
+            "reported for the first capture of a longer forced line.",
             "explicit TLA+ spec + TLC behaviour generation; impl->spec trace validation", "5/C12",
             "Trusted: TLC; layer R; the limit used lets exactly the first pass finish."),
     "C13": ("model_checking",
             "TLC generates positions with their colour mirror (promotion-free at the root, decided by the specification); "
             "the default engine searches both under the same poll budget; per-depth committed scores must be negations "
-            "(spec/Score.tla) for every depth both completed (spec/SearchTrace.tla, event mirror_pair).",
+            "(spec/Score.tla) for every depth both completed (spec/SearchTrace.tla, event mirror_pair). Material families around "
+            "the evaluation thresholds and an en-passant family (capture available at the root) are added to the BFS states.",
             "explicit TLA+ spec + TLC behaviour generation; impl->spec trace validation", "5/C13",
             "Trusted: TLC; Mirror/Neg of the specification; sampled positions (BFS depth 1 from the root set), not all reachable ones."),
     "C07": ("exploration",
@@ -106,7 +109,7 @@ CHECKS = {
     "C16": ("model_checking",
             "Encodings specified in spec/Abi.tla (TLC ASSUMEs Dec(Enc(x)) = x and distinctness on all 20480 moves + none); "
             "the opaque mirrors are observed by round trip: all moves through both mirrors, 'no move' with every score "
-            "kind, mate distances (all 2x65536 in thorough), numeric scores at extremes/around zero/seeded; TLC validates "
+            "kind, present moves paired with every kind of score, mate distances (all 2x65536 in thorough), numeric scores at extremes/around zero/seeded; TLC validates "
             "each recorded result. Thinnest use of the technique (enumeration with the spec as domain and oracle).",
             "explicit TLA+ spec + TLC; impl->spec validation of exhaustive round trips", "5/C16",
             "Trusted: TLC; numeric scores sampled."),
@@ -129,7 +132,8 @@ CHECKS = {
             "The trie is exported through the public iterator and TLC model-checks the whole graph (spec/Book.tla over "
             "layer R): every edge is a legal promotion-free move in the position its path reaches from the standard "
             "start, no path exceeds the termination bound, children stay inside the table; the implementation's own walk (move_new on "
-            "every edge, assertion-enabled build) must reach the same position text at every node. Complete (29k nodes).",
+            "every edge, assertion-enabled build) must reach the same position text at every node, and every node's iterator "
+            "driven with nth / step_by / count / last must stay inside the node's own list. Complete (29k nodes).",
             "explicit TLA+ spec + TLC model checking; impl walk compared node by node", "5/C17",
             "Trusted: TLC; layer R; node identity = Debug text of BookMoves; unreachable table indices are out of scope."),
     "C18": ("model_checking",
